@@ -118,7 +118,10 @@ def check(tier):
                 'grammar g;\n@left <e = a bc | ab c>;\n@right <e = abc>;\n' + rules_,
                 'grammar g;\n@left <e = a bc>;\n@right <e = ab c>;\n@none <e = abc>;\n' + rules_,
                 'grammar g;\n@left <ea = b>;\n@right <e = abc>;\n' + rules_,
-                'grammar g;\n' + rules_ + '@right <e = ab c> "x";\n@left "y" <e = a bc>;\n']
+                'grammar g;\n' + rules_ + '@right <e = ab c> "x";\n@left "y" <e = a bc>;\n',
+                # a handle restated inside ONE level (a level is a set: the directive grammar allows it and it is recorded once)
+                'grammar g;\n@left "x" "y" <e = a bc> "x";\n' + rules_,
+                'grammar g;\nNUM = /[0-9]+/;\n@none NUM "x" NUM;\n@left <e = abc> "y" <e = abc>;\nn = NUM;\n' + rules_]
     texts = fixtures + [gen_spec(rng) for _ in range(80 if tier == "quick" else 2500)]
     texts = [t for t in dict.fromkeys(texts) if S.printable(t)]
     res = C.hook_map([{"op": "spec", "text": t} for t in texts], timeout_each=20)
